@@ -37,6 +37,8 @@ Bad(e) ==
                 THEN {"G_C12_ClaimsBindUserHostAddress"} ELSE {})
          \cup (IF e.status = 200 /\ ~e.gatewayNamed THEN {"G_C12_GatewayNamed"} ELSE {})
          \cup (IF e.status = 200 /\ e.sel \in {"roundrobin", "unsigned", "any"} /\ e.replayed /\ ~e.tunnelAccepted THEN {"G_C12_FileIsUsable"} ELSE {})
+         \* the user token a file carries (login name rendered as name::token) is one minted for that file's user
+         \cup (IF "userTokSubOK" \in DOMAIN e /\ ~e.userTokSubOK THEN {"G_C15_TokenInFileIsTheUsers"} ELSE {})
          \cup (IF e.status = 200 /\ ~(e.expIn >= 0 /\ e.expIn <= Tok!Lifetime) THEN {"G_C02_MintLifetime"} ELSE {})
     [] OTHER -> {"G_UnknownEvent"}
 TInit == l = 1 /\ viol = {} /\ cover = {} /\ sess = [b \in Browsers |-> Fresh] /\ states = {} /\ nextId = 1 /\ last = NoLast
